@@ -233,7 +233,7 @@ def ewatcher (s : EState) : Option EState :=
     else none
   else none
 
-/-- the relay's `finally`: `await q.put(None)`; `await g.aclose()` -/
+/-- the relay's `finally`: `try: await q.put(None)` / `finally: await g.aclose()` -/
 def relayFinally (s : EState) : EState :=
   if s.q = .empty then
     if s.gen = .suspended then
@@ -248,7 +248,11 @@ def erelay (s : EState) : Option EState :=
     | .idle => some { s with rcancel := false, rpc := .done }
     | .anext => some (relayFinally { s with rcancel := false, gen := .finished, cleanups := s.cleanups + 1 })
     | .put => some (relayFinally { s with rcancel := false })
-    | .putNone => some { s with rcancel := false, rpc := .done }   -- raised inside the finally: aclose skipped
+    | .putNone =>
+      -- raised inside `await q.put(None)`: the inner `finally` still releases the producer
+      if s.gen = .suspended then
+        some { s with rcancel := false, gen := .finished, cleanups := s.cleanups + 1, rpc := .done }
+      else some { s with rcancel := false, rpc := .done }
     | .none => none
     | .done => none
   else
